@@ -25,7 +25,7 @@ package processorlimiter
 //@   requires[world] worldOK()
 //@   requires p.metaData != nil
 //@   allocates quota, map
-//@   modifies heap, gPendingInc, gLastAllowed, gAskedQuota, gAskedFor, now
+//@   modifies heap, gPendingInc, gLastAllowed, gLastQuotaInc, gAskedQuota, gAskedFor, now
 //@   ensures[own-quota-registered-for-this-transaction] result1 == nil ==> gAskedQuota == old(p.quotaID) && gAskedFor == apiStream.GetID()
 //@   ensures[verdict] result1 == nil ==> ((result0.Name == "below_limit") <==> gLastAllowed) && (result0.Name == "below_limit" || result0.Name == "above_limit")
 //@   ensures[world] worldOK()
